@@ -5,6 +5,10 @@ mod verif_kani {
     //! `indexmap` is the heap-free executable model /verif/models/indexmap_model in this build.
     use super::*;
     use aquatic_common::SecondsSinceServerStart;
+    use aquatic_common::{IndexMap, ValidUntil};
+    use arrayvec::ArrayVec;
+    use crossbeam_channel::Sender;
+    use rand::prelude::SmallRng;
 
     pub trait AnyIp: Ip { fn any_ip() -> Self; }
     impl AnyIp for Ipv4AddrBytes { fn any_ip() -> Self { Ipv4AddrBytes(kani::any()) } }
